@@ -14,6 +14,12 @@ Histories recorded here (every result is judged, none by this file):
     options (src "store");
   * files whose header voxel size (pixdim) disagrees with the column norms of
     the sform (plan["pixdim"], plan["qform"]);
+  * files that declare a spatial unit (plan["xyzt"]: micron, meter, mm,
+    unknown): the printed lengths are re-encoded under the millimetre
+    convention and, as an alternative, under the declared unit;
+  * several generations in ONE process from ONE file path
+    (run_samepath_case): the file replaced between the calls, ignore_scaling
+    alternating, through the tool's main and volume_file_to_info;
   * --generate-info run twice on ONE destination with two different volumes
     (run_rerun_case), the destination holding, before the second run, the
     pair of the first run / only its transform.json / only its
@@ -98,6 +104,8 @@ def build_nifti(path, plan, data):
         img = cls(data, None, header=hdr, dtype=data.dtype)
     if plan.get("slope") is not None:
         img.header.set_slope_inter(plan["slope"], plan["inter"])
+    if plan.get("xyzt"):
+        img.header.set_xyzt_units(plan["xyzt"])
     nibabel.save(img, path)
 
 
@@ -120,6 +128,8 @@ def check_file_affine(path, plan):
         z = img.header.get_zooms()[:3]
         if [Fraction(float(x)) for x in z] != list(plan["pixdim"]):
             raise tlc.MachineryError("file pixdim differs from the plan")
+    if plan.get("xyzt") and img.header.get_xyzt_units()[0] != plan["xyzt"]:
+        raise tlc.MachineryError("file spatial unit differs from the plan")
 
 
 def float32_exact(fr):
@@ -129,8 +139,57 @@ def float32_exact(fr):
         return False
 
 
-def observe(info, transform, vmin_mm):
-    """re-encode what the tool produced (no comparison with any expectation)"""
+DECLARED_UNIT = {"micron": Fraction(1, 1000), "meter": Fraction(1000), "mm": Fraction(1),
+                 "unknown": Fraction(1)}       # NIfTI xyzt_units, relative to the millimetre
+
+
+def declared_unit(plan):
+    return DECLARED_UNIT[plan.get("xyzt", "unknown")]
+
+
+def lengths_under(resolution, M, floor, unit):
+    """the printed lengths (resolution, translation; nanometres) re-encoded in
+    case units under the convention '1 file unit = `unit` mm' (pure change of
+    unit, exact).  Returns the alternative record handed to TLC."""
+    alt = {"unit": q2(unit), "res": [], "t": [], "nonrat": [], "hugeres": [], "huget": []}
+    for k, v in enumerate(resolution):
+        q = snap_len(v, floor, unit)
+        if q is None:
+            alt["nonrat"].append("res%d" % k)
+            q = Fraction(0)
+        if abs(q) >= REACH:
+            alt["hugeres"].append("res%d" % k)
+            q = Fraction(0)
+        alt["res"].append(q2(q))
+    for r in range(3):
+        q = snap_len(M[r][3], floor, unit)
+        if q is None:
+            alt["nonrat"].append("t%d" % r)
+            q = Fraction(0)
+        if abs(q) >= REACH:
+            alt["huget"].append("t%d" % r)
+            q = Fraction(0)
+        alt["t"].append(q2(q))
+    return alt
+
+
+def observe(info, transform, vmin_mm, decls=()):
+    """re-encode what the tool produced (no comparison with any expectation).
+    The lengths are encoded in the millimetre convention (1 file unit = 1 mm);
+    for every other unit in `decls` (units declared by the files involved) an
+    alternative encoding of the SAME printed numbers is added to o["alts"]."""
+    o = _observe_mm(info, transform, vmin_mm)
+    pure = [n for n in o["nonrat"] if not (n.startswith("res") or n.startswith("t"))]
+    o["alts"] = []
+    for u in sorted(set(decls)):
+        if u != 1:
+            alt = lengths_under(info["scales"][0]["resolution"], transform, Fraction(vmin_mm), u)
+            alt["nonrat"] = pure + alt["nonrat"]
+            o["alts"].append(alt)
+    return o
+
+
+def _observe_mm(info, transform, vmin_mm):
     o = {"ok": True, "nonrat": [], "hugeres": [], "huget": [], "hugeT": [], "hugebottom": []}
     sc = info["scales"][0]
     o["size"] = [int(v) if float(v).is_integer() else -1 for v in sc["size"]]
@@ -192,11 +251,12 @@ def observe(info, transform, vmin_mm):
     return o
 
 
-def snap_len(x_nm, floor_mm):
-    """a length printed in nanometres -> rational in case units (K per mm)"""
+def snap_len(x_nm, floor_mm, unit=Fraction(1)):
+    """a length printed in nanometres -> rational in case units (K per file
+    unit; one file unit = `unit` mm, the millimetre by default)"""
     if isinstance(x_nm, bool) or not isinstance(x_nm, (int, float)) or not math.isfinite(x_nm):
         return None
-    X = Fraction(x_nm) / 10 ** 6                     # exact, in mm
+    X = Fraction(x_nm) / (10 ** 6 * unit)            # exact, in file units
     tol = REL * max(abs(X), floor_mm)
     q = simplest_between(X - tol, X + tol)
     if q.denominator > MAX_DEN:
@@ -251,20 +311,21 @@ def toggled_sharding(plan, shape):
     return [shape[0] % 6, shape[1] % 6, shape[2] % 5, "gzip" if (shape[0] + shape[1]) % 2 else "raw"]
 
 
-def read_pair(out, vmin):
+def read_pair(out, vmin, decls=()):
     """re-encode the pair info_fullres.json + transform.json found in a directory"""
     try:
         with open(os.path.join(out, "info_fullres.json")) as f:
             info = json.load(f)
         with open(os.path.join(out, "transform.json")) as f:
             tr = json.load(f)
-        return observe(info, tr, vmin)
+        return observe(info, tr, vmin, decls)
     except Exception as e:
         return {"ok": False, "why": type(e).__name__}
 
 
 def vol_record(plan, dfacts, ffacts):
     return {"layout": ffacts["layout"], "shape": ffacts["shape"], "K": [K, 1],
+            "unit": q2(declared_unit(plan)),
             "A": [[q2(plan["A"][r][k]) for k in range(3)] for r in range(3)],
             "a": [q2(plan["a"][r]) for r in range(3)], "data": dfacts}
 
@@ -282,14 +343,15 @@ def run_info_case(work, plan, data):
         out = os.path.join(d, "out")
         os.makedirs(out)
         build_nifti(nii, plan, data)
-        if plan.get("pixdim"):
+        if plan.get("pixdim") or plan.get("xyzt"):
             check_file_affine(nii, plan)
         dfacts, ffacts = data_facts(nii, plan.get("ignore_scaling", False))
         argv, opts, sh = cli_args(plan, nii, out)
         res = vd.run_main(v2p.main, argv, record=False)
         vmin = min(plan["vs"])
+        decls = (declared_unit(plan),)
         obs = []
-        o = read_pair(out, vmin)
+        o = read_pair(out, vmin, decls)
         o["src"] = "file"
         o["req"] = req_of(sh)
         obs.append(o)
@@ -299,7 +361,7 @@ def run_info_case(work, plan, data):
                 img = nibabel.load(nii)
                 fi, jt, _, _ = volume_reader.nibabel_image_to_info(
                     img, ignore_scaling=bool(plan.get("ignore_scaling")), options=opts)
-            o2 = observe(json.loads(fi), [[float(x) for x in row] for row in jt], vmin)
+            o2 = observe(json.loads(fi), [[float(x) for x in row] for row in jt], vmin, decls)
             compact_src = [[float(x) for x in row] for row in jt]
         except Exception as e:
             o2 = {"ok": False, "why": type(e).__name__}
@@ -315,7 +377,7 @@ def run_info_case(work, plan, data):
                 with vd.silenced():
                     fi, jt, _, _ = volume_reader.nibabel_image_to_info(
                         img, ignore_scaling=bool(plan.get("ignore_scaling")), options=api_opts(sh2))
-                o3 = observe(json.loads(fi), [[float(x) for x in row] for row in jt], vmin)
+                o3 = observe(json.loads(fi), [[float(x) for x in row] for row in jt], vmin, decls)
             except Exception as e:
                 o3 = {"ok": False, "why": type(e).__name__}
             o3["src"] = "api2"
@@ -328,7 +390,7 @@ def run_info_case(work, plan, data):
                     acc = ngacc.get_accessor_for_url(out2, accessor_options=opts)
                     volume_reader.store_nibabel_image_to_fullres_info(
                         img, acc, ignore_scaling=bool(plan.get("ignore_scaling")), options=opts)
-                o4 = read_pair(out2, vmin)
+                o4 = read_pair(out2, vmin, decls)
             except Exception as e:
                 o4 = {"ok": False, "why": type(e).__name__}
             o4["src"] = "store"
@@ -357,6 +419,7 @@ def run_rerun_case(work, plan1, data1, plan2, data2, pre):
         out = os.path.join(d, "out")
         os.makedirs(out)
         vmin = min(min(plan1["vs"]), min(plan2["vs"]))
+        decls = (declared_unit(plan1), declared_unit(plan2))
         steps, results = [], []
         for k, (plan, data) in enumerate(((plan1, data1), (plan2, data2))):
             nii = os.path.join(d, "v%d.nii" % (k + 1))
@@ -370,7 +433,7 @@ def run_rerun_case(work, plan1, data1, plan2, data2, pre):
                 elif pre == "info_only":
                     os.remove(os.path.join(out, "transform.json"))
             res = vd.run_main(v2p.main, argv, record=False)
-            o = read_pair(out, vmin)
+            o = read_pair(out, vmin, decls)
             o["src"] = "file"
             o["req"] = req_of(sh)
             steps.append({"vol": vol_record(plan, dfacts, ffacts), "req": req_of(sh),
@@ -382,6 +445,56 @@ def run_rerun_case(work, plan1, data1, plan2, data2, pre):
             steps.append(steps[0])
             results.append(results[0])
         return {"kind": "rerun", "pre": pre, "first": steps[0], "second": steps[1]}, results
+    finally:
+        shutil.rmtree(d, ignore_errors=True)
+
+
+def run_samepath_case(work, steps):
+    """Several generations in ONE process from ONE file path.
+    steps: [{"plan", "data"} (write / replace the file before the call) or {}
+    (file left as it is), "ignore": bool, "via": "main" | "api"].  Each call
+    (volume-to-precomputed main, or volume_reader.volume_file_to_info) writes
+    into its own fresh destination; it is recorded together with the facts of
+    the file AS IT IS ON DISK at the time of the call.
+    Returns (case, [res per step])."""
+    from neuroglancer_scripts import volume_reader
+    from neuroglancer_scripts.scripts import volume_to_precomputed as v2p
+    d = tempfile.mkdtemp(prefix="same_", dir=work)
+    try:
+        nii = os.path.join(d, "vol.nii")
+        plans = [st["plan"] for st in steps if st.get("plan") is not None]
+        vmin = min(min(p["vs"]) for p in plans)
+        decls = tuple(declared_unit(p) for p in plans)
+        cur = None
+        recs, results = [], []
+        for k, st in enumerate(steps):
+            if st.get("plan") is not None:
+                cur = st["plan"]
+                tmp = os.path.join(d, "incoming.nii")
+                build_nifti(tmp, cur, st["data"])
+                os.replace(tmp, nii)                  # the file is REPLACED (new inode)
+                check_file_affine(nii, cur)
+            plan = dict(cur, ignore_scaling=bool(st["ignore"]))
+            dfacts, ffacts = data_facts(nii, plan["ignore_scaling"])
+            out = os.path.join(d, "out%d" % k)
+            os.makedirs(out)
+            argv, opts, sh = cli_args(plan, nii, out)
+            if st["via"] == "main":
+                res = vd.run_main(v2p.main, argv, record=False)
+            else:
+                res = vd.run_main(
+                    lambda _argv: volume_reader.volume_file_to_info(
+                        nii, out, ignore_scaling=plan["ignore_scaling"], options=opts),
+                    [], record=False)
+            o = read_pair(out, vmin, decls)
+            o["src"] = st["via"]
+            o["req"] = req_of(sh)
+            recs.append({"vol": vol_record(plan, dfacts, ffacts), "req": req_of(sh),
+                         "ignore": plan["ignore_scaling"], "via": st["via"],
+                         "replaced": st.get("plan") is not None,
+                         "run": {"outcome": res["outcome"], "exit": res["exit"]}, "obs": o})
+            results.append(res)
+        return {"kind": "history", "steps": recs}, results
     finally:
         shutil.rmtree(d, ignore_errors=True)
 
